@@ -109,6 +109,7 @@ pub async fn build(
     let mut c = Cluster::new(opts.clone(), scratch.to_path_buf()).await?;
     for ev in history {
         crate::simkit::cluster_ext::apply_any(&mut c, ev).await.map_err(|e| format!("replay of {ev:?}: {e}"))?;
+        crate::simkit::cluster_ext::check_global(&mut c).await;
     }
     if let Some(s) = shared {
         s.replays.fetch_add(1, Ordering::Relaxed);
